@@ -308,16 +308,16 @@ def materialise(desc):
         da, db = _to_doc(small[ia]), _to_doc(small[ib], prefix="Other")
         if da is None or db is None:
             return []
-        ops = [_op("A", da[0]), _op("Bee", db[0])]
+        ops = [_op("Op", da[0]), _op("OpB", db[0])]
         frags = da[1] + db[1]
         out = []
-        for opname in (None, "A", "Bee", "Zed"):
+        for opname in (None, "Op", "OpB", "O", "OpBx", "pB"):
             out.append(_mk_case(ops, _copy(frags), opname=opname, tag="multi"))
         # single literal-directive deviations in two-operation documents (no filter / each filter)
         if len(_all_nodes([o["sels"] for o in ops], frags)) <= 4:
             for c in _deviations(None, frags, ops, "multi", False):
                 out.append(c)
-                for opname in ("A", "Bee"):
+                for opname in ("Op", "OpB"):
                     c2 = _copy(c)
                     c2["operation_name"] = opname
                     out.append(c2)
@@ -327,7 +327,7 @@ def materialise(desc):
         d = _to_doc(_small(m)[ia])
         if d is None:
             return []
-        return [_mk_case([_op(None, d[0])], d[1], opname="A", tag="anon-filtered")]
+        return [_mk_case([_op(None, d[0])], d[1], opname="Op", tag="anon-filtered")]
     raise ValueError(kind)
 
 
@@ -539,6 +539,42 @@ def evaluate(case, st=None):
     return out
 
 
+def evaluate_reuse(case, st=None):
+    """the same rule INSTANCE and the same parsed document, called with v=true then v=false then v=true:
+    every call must be judged on its own variables"""
+    from py_gql.lang import parse
+    from py_gql.utilities import MaxDepthValidationRule
+
+    doc = case["doc"]
+    text = D.render_doc(doc)
+    fm = {f[0]: f for f in doc["frags"]}
+    ast = parse(text)
+    schema = _schema()
+    out = []
+    depth = {}
+    for v in (True, False):
+        depth[v] = max(ref_depth(op, fm, {"v": v}) for op in doc["ops"])
+    if depth[True] == depth[False]:
+        return out
+    for limit in sorted({min(depth.values()), max(depth.values()) - 1}):
+        if limit < 0:
+            continue
+        rule = MaxDepthValidationRule(limit)
+        for v in (True, False, True):
+            if st is not None:
+                st.n("evaluations")
+            try:
+                got = bool(list(rule(schema, ast, {"v": v})))
+            except Exception as e:  # noqa
+                out.append(("raises:%s" % type(e).__name__, "reused instance limit=%d v=%s: %r on %s" % (limit, v, e, text)))
+                return out
+            want = depth[v] > limit
+            if got != want:
+                out.append(("stale-verdict:reused-rule-instance", "limit=%d v=%s expected error=%s got %s (depths %s); doc: %s" % (limit, v, want, got, depth, text)))
+                return out
+    return out
+
+
 def check_case(desc, st):
     out = []
     for case in materialise(desc):
@@ -548,8 +584,15 @@ def check_case(desc, st):
         st.n("tag:" + case["tag"].split("/")[0])
         for cls, detail in evaluate(case, st):
             out.append((cls, case, detail))
+        if case["variables"] and case["variables"].get("v") is True:
+            for cls, detail in evaluate_reuse(case, st):
+                w = dict(case)
+                w["reuse"] = True
+                out.append((cls, w, detail))
     return out
 
 
 def replay(witness):
+    if witness.get("reuse"):
+        return evaluate_reuse(witness, None)
     return evaluate(witness, None)
